@@ -56,6 +56,7 @@ import (
 	sdk "github.com/cosmos/cosmos-sdk/types"
 	"github.com/ethereum/go-ethereum/accounts/abi"
 	"github.com/ethereum/go-ethereum/common"
+	"github.com/ethereum/go-ethereum/core/vm"
 	"github.com/ethereum/go-ethereum/crypto"
 	tronaddress "github.com/fbsobreira/gotron-sdk/pkg/address"
 
@@ -87,6 +88,8 @@ type objT struct {
 	sol     map[string]any // values the relayer submits, by canonical contract parameter name
 	removed bool
 	proto   any // the stored proto object (to store a twin on another eth-style chain)
+	indep   bool   // digest was recomputed independently of the code under test (go-ethereum ABI packer over the Solidity argument list)
+	eq      string // "eq": all uint64 fields fit an int64 (Go bytes = Solidity bytes), "ne" otherwise
 }
 
 func (o *objT) keyStr() string { return fmt.Sprintf("%s/%s/%d", o.kind, o.token, o.nonce) }
@@ -307,6 +310,26 @@ func loadSolSites() []solSiteT {
 	return sites
 }
 
+func loadSolPrefix() map[string][]byte {
+	res := map[string][]byte{}
+	bz, err := os.ReadFile(os.Getenv("VERIF_FACTS"))
+	if err != nil {
+		return res
+	}
+	var facts map[string]json.RawMessage
+	if json.Unmarshal(bz, &facts) != nil {
+		return res
+	}
+	var m map[string]string
+	_ = json.Unmarshal(facts["C12.solSignPrefix"], &m)
+	for f, hx := range m {
+		if b, err := hex.DecodeString(hx); err == nil && len(b) > 0 {
+			res[f] = b
+		}
+	}
+	return res
+}
+
 func canonName(s string) string {
 	s = strings.TrimPrefix(s, "input.")
 	s = strings.TrimLeft(s, "_")
@@ -355,6 +378,81 @@ func solDigest(site solSiteT, vals map[string]any) ([]byte, error) {
 
 func u256(x uint64) *big.Int { return new(big.Int).SetUint64(x) }
 
+// values the relayer submits to the contract for an object, by canonical contract parameter name (relayer convention);
+// second result: do all uint64 fields fit an int64
+func solOfOracleSet(c *chainT, os *types.OracleSet) (map[string]any, bool) {
+	solAddrs, solPowers := []common.Address{}, []*big.Int{}
+	safe := os.Nonce < 1<<63
+	for _, m := range os.Members {
+		solAddrs, solPowers = append(solAddrs, common.BytesToAddress(b20(c, m.ExternalAddress))), append(solPowers, u256(m.Power))
+		safe = safe && m.Power < 1<<63
+	}
+	return map[string]any{"oraclesetnonce": u256(os.Nonce), "oracles": solAddrs, "powers": solPowers}, safe
+}
+
+func solOfBatch(c *chainT, b *types.OutgoingTxBatch) (map[string]any, bool) {
+	solAm, solDst, solFee := []*big.Int{}, []common.Address{}, []*big.Int{}
+	for _, t := range b.Transactions {
+		solAm, solDst, solFee = append(solAm, t.Token.Amount.BigInt()), append(solDst, common.BytesToAddress(b20(c, t.DestAddress))), append(solFee, t.Fee.Amount.BigInt())
+	}
+	return map[string]any{"amounts": solAm, "destinations": solDst, "fees": solFee, "batchnonce": u256(b.BatchNonce), "noncearray[1]": u256(b.BatchNonce),
+		"tokencontract": common.BytesToAddress(b20(c, b.TokenContract)), "batchtimeout": u256(b.BatchTimeout), "feereceive": common.BytesToAddress(b20(c, b.FeeReceive))}, b.BatchNonce < 1<<63 && b.BatchTimeout < 1<<63
+}
+
+func solOfBridgeCall(c *chainT, bc *types.OutgoingBridgeCall) (map[string]any, bool) {
+	solTok, solAmt := []common.Address{}, []*big.Int{}
+	for _, t := range bc.Tokens {
+		solTok, solAmt = append(solTok, common.BytesToAddress(b20(c, t.Contract))), append(solAmt, t.Amount.BigInt())
+	}
+	data, _ := hex.DecodeString(bc.Data)
+	memo, _ := hex.DecodeString(bc.Memo)
+	return map[string]any{"sender": common.BytesToAddress(b20(c, bc.Sender)), "refund": common.BytesToAddress(b20(c, bc.Refund)), "tokens": solTok, "amounts": solAmt,
+		"to": common.BytesToAddress(b20(c, bc.To)), "data": data, "memo": memo, "nonce": u256(bc.Nonce), "timeout": u256(bc.Timeout), "eventnonce": u256(bc.EventNonce)}, bc.Nonce < 1<<63 && bc.Timeout < 1<<63 && bc.EventNonce < 1<<63
+}
+
+// contractDigest: the digest FxBridgeLogic.sol recomputes for these values under the chain's gravity id — go-ethereum's ABI
+// packer over the abi.encode argument list read from the Solidity source; nil when the facts are not loaded
+func (h *hCtx) contractDigest(c *chainT, kind string, sol map[string]any) []byte {
+	var gidW [32]byte
+	copy(gidW[:], c.gid)
+	sol["fxbridgeid"], sol["state_fxbridgeid"] = gidW, gidW
+	for _, site := range h.sites {
+		if site.Func == solFuncOfKind[kind] && site.File == "FxBridgeLogic.sol" {
+			if d, err := solDigest(site, sol); err == nil {
+				return d
+			}
+		}
+	}
+	return nil
+}
+
+// contractVerifySig evaluates FxBridgeLogic.verifySig with go-ethereum's ecrecover precompile: input = digest32 ++ v(32) ++
+// r ++ s, v must be 27 or 28 (anything else makes the precompile return nothing = address(0)).
+func contractVerifySig(prefix, hash, sig []byte, signer common.Address) bool {
+	if len(sig) < 65 {
+		return false
+	}
+	v := sig[64]
+	if v < 27 {
+		v += 27 // the relayer submits v in the contract's convention
+	}
+	msg := crypto.Keccak256(append(append([]byte{}, prefix...), hash...))
+	in := make([]byte, 128)
+	copy(in[0:32], msg)
+	in[63] = v
+	copy(in[64:96], sig[0:32])
+	copy(in[96:128], sig[32:64])
+	pc, ok := vm.PrecompiledContractsHomestead[common.BytesToAddress([]byte{1})]
+	if !ok {
+		return false
+	}
+	out, err := pc.Run(nil, &vm.Contract{Input: in}, true)
+	if err != nil || len(out) != 32 {
+		return false
+	}
+	return len(sig) == 65 && common.BytesToAddress(out[12:]) == signer && signer != (common.Address{})
+}
+
 // ---- objects -----------------------------------------------------------------------------------------------------
 
 type hCtx struct {
@@ -365,6 +463,7 @@ type hCtx struct {
 	ctx   sdk.Context
 	big_  int
 	sites []solSiteT
+	solPrefix map[string][]byte // per Solidity file: first argument of abi.encodePacked(...) in verifySig
 }
 
 func allSafe(xs ...uint64) string {
@@ -405,11 +504,9 @@ func (h *hCtx) genOracleSet(c *chainT, nonce uint64, safe bool) *types.OracleSet
 func (h *hCtx) putOracleSet(c *chainT, os *types.OracleSet) *objT {
 	var parts []string
 	pw := []uint64{os.Nonce}
-	solAddrs, solPowers := []common.Address{}, []*big.Int{}
 	for _, m := range os.Members {
 		a := b20(c, m.ExternalAddress)
 		pw = append(pw, m.Power)
-		solAddrs, solPowers = append(solAddrs, common.BytesToAddress(a)), append(solPowers, u256(m.Power))
 		parts = append(parts, fmt.Sprintf("%s:%d", hex.EncodeToString(a), m.Power))
 	}
 	cp := func(gid string) ([]byte, error) {
@@ -419,7 +516,7 @@ func (h *hCtx) putOracleSet(c *chainT, os *types.OracleSet) *objT {
 		return os.GetCheckpoint(gid)
 	}
 	c.k.StoreOracleSet(h.ctx, os)
-	sol := map[string]any{"oraclesetnonce": u256(os.Nonce), "oracles": solAddrs, "powers": solPowers}
+	sol, _ := solOfOracleSet(c, os)
 	o := &objT{kind: "oset", nonce: os.Nonce, cp: cp, sol: sol, proto: os}
 	h.emitStore(c, o, fmt.Sprintf("oset %s %d %s", c.name, os.Nonce, joinOrDash(parts)), allSafe(pw...))
 	return o
@@ -461,14 +558,12 @@ func (h *hCtx) putBatch(c *chainT, b0 *types.OutgoingTxBatch) *objT {
 	b.Block = c.blockNo
 	b.Transactions = nil
 	var parts []string
-	solAm, solDst, solFee := []*big.Int{}, []common.Address{}, []*big.Int{}
 	for _, t0 := range b0.Transactions {
 		t := *t0
 		c.txID++
 		t.Id = c.txID
 		b.Transactions = append(b.Transactions, &t)
 		d := b20(c, t.DestAddress)
-		solAm, solDst, solFee = append(solAm, t.Token.Amount.BigInt()), append(solDst, common.BytesToAddress(d)), append(solFee, t.Fee.Amount.BigInt())
 		parts = append(parts, fmt.Sprintf("%s:%s:%s", t.Token.Amount.String(), hex.EncodeToString(d), t.Fee.Amount.String()))
 	}
 	cp := func(gid string) ([]byte, error) {
@@ -481,8 +576,7 @@ func (h *hCtx) putBatch(c *chainT, b0 *types.OutgoingTxBatch) *objT {
 		h.t.Fatalf("StoreBatch: %v", err)
 	}
 	token, fr := b20(c, b.TokenContract), b20(c, b.FeeReceive)
-	sol := map[string]any{"amounts": solAm, "destinations": solDst, "fees": solFee, "batchnonce": u256(b.BatchNonce), "noncearray[1]": u256(b.BatchNonce),
-		"tokencontract": common.BytesToAddress(token), "batchtimeout": u256(b.BatchTimeout), "feereceive": common.BytesToAddress(fr)}
+	sol, _ := solOfBatch(c, &b)
 	o := &objT{kind: "batch", nonce: b.BatchNonce, token: b.TokenContract, cp: cp, sol: sol, proto: b0}
 	h.emitStore(c, o, fmt.Sprintf("batch %s %s %s %d %d %s %s", c.name, b.TokenContract, hex.EncodeToString(token), b.BatchNonce, b.BatchTimeout,
 		hex.EncodeToString(fr), joinOrDash(parts)), allSafe(b.BatchNonce, b.BatchTimeout))
@@ -512,10 +606,8 @@ func (h *hCtx) genBridgeCall(c *chainT, nonce uint64, safe bool) *types.Outgoing
 
 func (h *hCtx) putBridgeCall(c *chainT, bc *types.OutgoingBridgeCall) *objT {
 	var parts []string
-	solTok, solAmt := []common.Address{}, []*big.Int{}
 	for _, t := range bc.Tokens {
 		ct := b20(c, t.Contract)
-		solTok, solAmt = append(solTok, common.BytesToAddress(ct)), append(solAmt, t.Amount.BigInt())
 		parts = append(parts, fmt.Sprintf("%s:%s", hex.EncodeToString(ct), t.Amount.String()))
 	}
 	cp := func(gid string) ([]byte, error) {
@@ -528,8 +620,7 @@ func (h *hCtx) putBridgeCall(c *chainT, bc *types.OutgoingBridgeCall) *objT {
 	sd, rf, to := b20(c, bc.Sender), b20(c, bc.Refund), b20(c, bc.To)
 	data, _ := hex.DecodeString(bc.Data)
 	memo, _ := hex.DecodeString(bc.Memo)
-	sol := map[string]any{"sender": common.BytesToAddress(sd), "refund": common.BytesToAddress(rf), "tokens": solTok, "amounts": solAmt,
-		"to": common.BytesToAddress(to), "data": data, "memo": memo, "nonce": u256(bc.Nonce), "timeout": u256(bc.Timeout), "eventnonce": u256(bc.EventNonce)}
+	sol, _ := solOfBridgeCall(c, bc)
 	o := &objT{kind: "bcall", nonce: bc.Nonce, cp: cp, sol: sol, proto: bc}
 	h.emitStore(c, o, fmt.Sprintf("bcall %s %d %s %s %s %s %s %d %d %s", c.name, bc.Nonce, hex.EncodeToString(sd), hex.EncodeToString(rf), hex.EncodeToString(to),
 		hx.Hex(data), hx.Hex(memo), bc.Timeout, bc.EventNonce, joinOrDash(parts)), allSafe(bc.Nonce, bc.Timeout, bc.EventNonce))
@@ -559,12 +650,20 @@ func (h *hCtx) emitStore(c *chainT, o *objT, op, eq string) {
 		h.out.Emit(op, "err:"+err.Error())
 		return
 	}
-	o.digest = d
+	o.digest, o.eq = d, eq
 	c.objs = append(c.objs, o)
 	c.ledger[o.keyStr()] = o
 	h.out.Emit(op, hex.EncodeToString(d)+" "+eq)
+	if eq == "eq" && o.sol != nil {
+		// from here on the digest the oracles of the harness SIGN is the one recomputed independently of the code under test
+		// (the contract's abi.encode argument list, go-ethereum's packer); a deviation of the real encoder is reported below
+		if cd := h.contractDigest(c, o.kind, o.sol); cd != nil {
+			o.digest, o.indep = cd, true
+			h.out.Count("digest:independent")
+		}
+	}
 	// monitor: what is read back from the real store under the object's key has this checkpoint
-	if rd := h.liveDigest(c, o.kind, o.token, o.nonce); !bytes.Equal(rd, d) {
+	if rd := h.liveDigest(c, o.kind, o.token, o.nonce); !bytes.Equal(rd, o.digest) {
 		h.out.Violate(fmt.Sprintf("a stored %s read back from the store under its own key has another checkpoint than the object that was stored", o.kind))
 	}
 	if eq == "eq" && o.sol != nil {
@@ -590,7 +689,9 @@ func (h *hCtx) emitStore(c *chainT, o *objT, op, eq string) {
 }
 
 // liveDigest reads the object back from the REAL store under exactly (kind, token, nonce) and recomputes its checkpoint
-// under the gravity id of the chain's parameters; nil when no such object is stored.
+// under the gravity id of the chain's parameters; nil when no such object is stored.  When every uint64 field fits an int64
+// the digest is recomputed INDEPENDENTLY of the code under test (the contract's abi.encode list, go-ethereum's packer, own
+// base58 / hex address decoding) on every chain style; above 2^63 (Go and Solidity differ by design) by the real encoder.
 func (h *hCtx) liveDigest(c *chainT, kind, token string, nonce uint64) []byte {
 	gid := c.gid
 	var d []byte
@@ -600,6 +701,11 @@ func (h *hCtx) liveDigest(c *chainT, kind, token string, nonce uint64) []byte {
 		os := c.k.GetOracleSet(h.ctx, nonce)
 		if os == nil {
 			return nil
+		}
+		if sol, safe := solOfOracleSet(c, os); safe {
+			if cd := h.contractDigest(c, kind, sol); cd != nil {
+				return cd
+			}
 		}
 		if c.tron {
 			d, err = trontypes.GetCheckpointOracleSet(os, gid)
@@ -611,6 +717,11 @@ func (h *hCtx) liveDigest(c *chainT, kind, token string, nonce uint64) []byte {
 		if b == nil {
 			return nil
 		}
+		if sol, safe := solOfBatch(c, b); safe {
+			if cd := h.contractDigest(c, kind, sol); cd != nil {
+				return cd
+			}
+		}
 		if c.tron {
 			d, err = trontypes.GetCheckpointConfirmBatch(b, gid)
 		} else {
@@ -620,6 +731,11 @@ func (h *hCtx) liveDigest(c *chainT, kind, token string, nonce uint64) []byte {
 		bc, found := c.k.GetOutgoingBridgeCallByNonce(h.ctx, nonce)
 		if !found {
 			return nil
+		}
+		if sol, safe := solOfBridgeCall(c, bc); safe {
+			if cd := h.contractDigest(c, kind, sol); cd != nil {
+				return cd
+			}
 		}
 		if c.tron {
 			d, err = trontypes.GetCheckpointBridgeCall(bc, gid)
@@ -794,6 +910,17 @@ func (h *hCtx) verifyEntry(c *chainT, e entryT, class string) {
 	if got := c.recoverOwn(digest, sig); got != rec.ExternalAddress {
 		h.out.Violate(fmt.Sprintf("stored %s confirm does not verify under the oracle's registered external key over the checkpoint of the stored object it is filed under (after %s)", kind, class))
 	}
+	if !c.tron && len(h.solPrefix) > 0 {
+		// the contract's own check: verifySig(_signer, _theHash, v, r, s) = (_signer == ecrecover(keccak256(abi.encodePacked(
+		// <prefix read from the Solidity source>, _theHash)), v, r, s)), with go-ethereum's ECRECOVER PRECOMPILE (address 0x01)
+		// as ecrecover and (v, r, s) split off the stored signature as the relayer does (v = 27 / 28)
+		for file, pfx := range h.solPrefix {
+			h.out.Count("contract-verifySig:" + file)
+			if !contractVerifySig(pfx, digest, sig, common.HexToAddress(rec.ExternalAddress)) {
+				h.out.Violate(fmt.Sprintf("stored %s confirm does not pass %s:verifySig (ecrecover precompile over keccak256(abi.encodePacked(prefix, digest)) with v,r,s split off the stored signature) for the oracle's registered external address: the accepted confirmation is not usable on the bridge contract (after %s)", kind, file, class))
+			}
+		}
+	}
 	if e.ext != rec.ExternalAddress {
 		h.out.Violate(fmt.Sprintf("stored %s confirm names an external address that is not the oracle's (after %s)", kind, class))
 	}
@@ -911,6 +1038,31 @@ func (h *hCtx) sendConfirm(c *chainT, k keyT, bridger, ext, sigText string, sign
 	} else if len(added) != 0 {
 		h.out.Violate(fmt.Sprintf("rejected %s confirm (%s) changed the confirm store", k.kind, class))
 	}
+	// monitor (the other direction of "the checkpoint fxcore signs is the digest the contract recomputes"): a confirm that
+	// names a live object, is submitted by the bridger of the oracle its external address is registered to, carries a 65-byte
+	// signature that recovers (own recovery) to that external address over the digest the CONTRACT recomputes for that object
+	// (recomputed independently), with no confirmation of that oracle for the object stored yet, must be accepted — a handler
+	// that rejects it verifies signatures against another checkpoint than the one the oracles sign and the contract checks.
+	if o := c.ledger[k.str()]; o != nil && !o.removed && o.indep && sigBytes != nil && len(sigBytes) == 65 {
+		if oa, found := c.k.GetOracleAddrByExternalAddr(h.ctx, ext); found {
+			if rec, found := c.k.GetOracle(h.ctx, oa); found && rec.ExternalAddress == ext && rec.BridgerAddress == bridger {
+				dup := false
+				for _, b := range before {
+					if b.key == k && b.oracle.Equals(oa) {
+						dup = true
+					}
+				}
+				ld := h.liveDigest(c, k.kind, k.token, k.nonce)
+				if !dup && ld != nil && c.recoverOwn(ld, sigBytes) == ext {
+					h.out.Count("honest-confirm:" + k.kind + ":" + map[bool]string{true: "tron", false: "eth"}[c.tron] + ":" + kind)
+					if kind != "ok" {
+						h.out.Violate(fmt.Sprintf("a %s confirm (%s) carrying the oracle's signature over the digest the bridge contract recomputes for the stored object it names, submitted by that oracle's bridger, first for that oracle and object, was rejected (%s) on the %s chain: the handler verifies signatures against another checkpoint than the contract's",
+							k.kind, class, kind, map[bool]string{true: "tron", false: "eth-style"}[c.tron]))
+					}
+				}
+			}
+		}
+	}
 	for _, e := range added {
 		if e.key != k {
 			h.out.Violate(fmt.Sprintf("an accepted %s confirm (%s) was filed under another key (token contract / nonce) than the message names", k.kind, class))
@@ -926,6 +1078,33 @@ func (h *hCtx) sendConfirm(c *chainT, k keyT, bridger, ext, sigText string, sign
 		}
 		h.verifyEntry(c, e, class)
 	}
+}
+
+// otherEncoder applies the checkpoint encoder of the other chain style to the stored proto object.
+func otherEncoder(c *chainT, o *objT, gid string) (d []byte, err error) {
+	defer func() {
+		if r := recover(); r != nil {
+			d, err = nil, fmt.Errorf("panic: %v", r)
+		}
+	}()
+	switch p := o.proto.(type) {
+	case *types.OracleSet:
+		if c.tron {
+			return p.GetCheckpoint(gid)
+		}
+		return trontypes.GetCheckpointOracleSet(p, gid)
+	case *types.OutgoingTxBatch:
+		if c.tron {
+			return p.GetCheckpoint(gid)
+		}
+		return trontypes.GetCheckpointConfirmBatch(p, gid)
+	case *types.OutgoingBridgeCall:
+		if c.tron {
+			return p.GetCheckpoint(gid)
+		}
+		return trontypes.GetCheckpointBridgeCall(p, gid)
+	}
+	return nil, fmt.Errorf("no proto")
 }
 
 func malleate(sig []byte) []byte {
@@ -970,7 +1149,8 @@ var confirmClasses = []string{"valid", "valid", "valid", "valid", "valid", "v27"
 	"other-prefix", "other-key", "other-chain-checkpoint", "wrong-bridger", "unknown-ext", "missing-object", "nothex", "empty", "swapped-identity", "random65", "no-prefix",
 	// right in all but one coordinate
 	"wrong-token", "wrong-token", "wrong-token-spelling", "wrong-nonce", "wrong-nonce", "wrong-chain", "wrong-chain", "ext-of-other-oracle", "bridger-of-other-oracle",
-	"neighbour-sig", "neighbour-sig", "pruned-object", "pruned-object", "other-kind-same-nonce", "ext-spelling", "earlier-gid", "self-made-identity"}
+	"neighbour-sig", "neighbour-sig", "pruned-object", "pruned-object", "other-kind-same-nonce", "ext-spelling", "earlier-gid", "self-made-identity",
+	"other-encoder", "other-encoder"}
 
 func (h *hCtx) randomConfirm(c *chainT, others []*chainT) { h.confirmOfClass(c, others, "", "") }
 
@@ -1093,6 +1273,17 @@ func (h *hCtx) confirmOfClass(c *chainT, others []*chainT, forceClass, forceKind
 		}
 		d, err := o.cp(g)
 		if err != nil {
+			return
+		}
+		digest = d
+		sig = c.sign(digest, or.key)
+	case "other-encoder":
+		// the oracle's signature over what the encoder of the OTHER chain style yields for this very object and gravity id
+		// (tron chain: the eth-style GetCheckpoint, which reads base58 address text through HexToAddress; eth-style chain: the
+		// tron encoder, when it accepts hex address text at all)
+		d, err := otherEncoder(c, o, c.gid)
+		if err != nil || d == nil || bytes.Equal(d, o.digest) {
+			h.out.Count("other-encoder:n/a")
 			return
 		}
 		digest = d
@@ -1671,6 +1862,8 @@ func TestC12(t *testing.T) {
 	s := hx.NewSuite(t, 1)
 	sites := loadSolSites()
 	out.Stats.Extra["solidity_sites_loaded"] = len(sites)
+	solPrefix := loadSolPrefix()
+	out.Stats.Extra["solidity_verifySig_prefixes_loaded"] = len(solPrefix)
 	nSeq := hx.N(40, 300)
 	big_ := 40
 	nObj, nConf := 8, 90
@@ -1680,7 +1873,7 @@ func TestC12(t *testing.T) {
 	for q := 0; q < nSeq; q++ {
 		out.Reset()
 		cctx, _ := s.Ctx.CacheContext()
-		h := &hCtx{t: t, s: s, out: out, rng: rng, ctx: cctx, big_: big_, sites: sites}
+		h := &hCtx{t: t, s: s, out: out, rng: rng, ctx: cctx, big_: big_, sites: sites, solPrefix: solPrefix}
 		var chains []*chainT
 		chains = append(chains, h.setupChain("eth", s.App.EthKeeper, 1+rng.Intn(4), chains))
 		chains = append(chains, h.setupChain("bsc", s.App.BscKeeper, 1+rng.Intn(3), chains))
